@@ -232,6 +232,24 @@ def wind_model_diff(c, hexbytes, view):
     return None
 
 
+def wind_rec_model_diff(c, hexbytes, view):
+    """the record reader's view against its Lean model (WindRec.read) applied to the same bytes (None = equal)"""
+    out = lib.run_model(['bin wind-rd %d %s' % (c['nx'] * c['ny'], hexbytes or '-')])[0]
+    if 'err' in view:
+        return None if out.startswith('err') else 'record reader raised %s, its Lean model reads the file' % view['err']
+    if not out.startswith('ok '):
+        return 'Lean model of the record reader: %s, the reader read the file' % out[:40]
+    _, kv = lib.parse_kv('x ' + out[3:])
+    if float(kv['nt']) != view['nt'] or float(kv['nz']) != view['nz']:
+        return 'record reader steps/layers model=%s,%s reader=%s,%s' % (kv['nt'], kv['nz'], view['nt'], view['nz'])
+    if kv['u'] != (camx.hexwords(view['vars']['U']) or '-') or kv['v'] != (camx.hexwords(view['vars']['V']) or '-'):
+        return 'U/V data of the record reader differ from its Lean model'
+    want = ','.join('%d:%d' % (int(d), int(t)) for d, t in view.get('timerange', [])) or '-'
+    if 'timerange' in view and kv['times'] != want:
+        return 'timerange() of the record reader %s, its Lean model %s' % (want, kv['times'])
+    return None
+
+
 def wind_build(c, dtype='f'):
     import PseudoNetCDF as pnc
     nt, nz, ny, nx = len(c['flags']), c['nz'], c['ny'], c['nx']
